@@ -32,11 +32,12 @@ var (
 	driver   = flag.String("driver", "/verif/lean/.lake/build/bin/driver", "lean driver binary")
 	out      = flag.String("out", "/verif/evidence/.c10c.report.json", "report path")
 	findings = flag.String("findings", "/verif/known-findings.json", "known findings")
+	proposed = flag.String("proposed", "/verif/props/C10C.known-findings.proposed.json", "proposed known findings of this part (counted as known until the coordinator moves them to known-findings.json)")
 	replay   = flag.String("replay", "", "replay file (one JSON history per line, as printed in a case's detail)")
 	scale    = flag.Int("scale", 1, "multiply generated case counts (search mode uses 10)")
 	nomodel  = flag.Bool("nomodel", false, "property oracles on the implementation only")
 	hints    = flag.String("hints", "", "file of histories that disagreed; replayed first")
-	only     = flag.String("only", "", "development: run only the named stages (corpus,gen,protected,inherit,mutate,prefix)")
+	only     = flag.String("only", "", "development: run only the named stages (corpus,gen,protected,fragment,inherit,mutate,prefix)")
 	verbose  = flag.Bool("v", false, "development: print every case")
 )
 
@@ -51,6 +52,8 @@ type harness struct {
 	known map[string]vh.Finding
 	items []item
 	hash  uint64
+
+	fragSeen map[string]bool
 }
 
 func (h *harness) stable(s string) {
@@ -99,6 +102,15 @@ func main() {
 		os.Exit(2)
 	}
 	h.known = vh.KnownKeys(fs, "C10")
+	if b, err := os.ReadFile(*proposed); err == nil {
+		var pf []vh.Finding
+		json.Unmarshal(b, &pf)
+		for k, f := range vh.KnownKeys(pf, "C10") {
+			if _, ok := h.known[k]; !ok {
+				h.known[k] = f
+			}
+		}
+	}
 
 	n := 2500 * *scale
 	if *tier == "thorough" {
@@ -121,6 +133,9 @@ func main() {
 		}
 		if stage("protected") {
 			h.protectedCases(n / 2)
+		}
+		if stage("fragment") {
+			h.fragmentCases(n / 2)
 		}
 		if stage("inherit") {
 			h.inheritCases(n / 4)
